@@ -352,10 +352,10 @@ func runCase(c driver.Case) driver.Result {
 
 func main() {
 	driver.Main(driver.Property{
-		ID:    "C09",
-		Level: "exploration",
-		Rule:  "every catalogue entry (and random chains) × scripts with the three endings × sources {synchronous inside Subscribe, puppet after Subscribe}: SubscribeWithContext gets a context carrying a subscription value; every source notification carries its own per-item value; a ContextWithValue operator upstream of the operator under test attaches a third value; WithContext callbacks return a derived context (fourth value). Oracle on every callback of the recording observer: context non-nil; subscription value visible in Next, Error and Complete; every source subscription carries the subscription value; a delivery made while a source notification is processed carries a per-item value of a source notification (of exactly that one for 1:1 synchronous operators); the upstream operator's value and the callback-returned value are still attached. Exempt by definition: ContextReset, DefaultIfEmptyWithContext. Non-trivial: ≥1 callback observed.",
-		Assume: []string{"operators that store or combine notifications may deliver the context of any contributing notification"},
+		ID:        "C09",
+		Level:     "exploration",
+		Rule:      "every catalogue entry (and random chains) × scripts with the three endings × sources {synchronous inside Subscribe, puppet after Subscribe}: SubscribeWithContext gets a context carrying a subscription value; every source notification carries its own per-item value; a ContextWithValue operator upstream of the operator under test attaches a third value; WithContext callbacks return a derived context (fourth value). Oracle on every callback of the recording observer: context non-nil; subscription value visible in Next, Error and Complete; every source subscription carries the subscription value; a delivery made while a source notification is processed carries a per-item value of a source notification (of exactly that one for 1:1 synchronous operators); the upstream operator's value and the callback-returned value are still attached. Exempt by definition: ContextReset, DefaultIfEmptyWithContext. Non-trivial: ≥1 callback observed. For Delay / ObserveOn / SubscribeOn (one value out per value in, FIFO) the i-th delivered value must carry the per-item context of the i-th source value, however many values wait inside the operator.",
+		Assume:    []string{"operators that store or combine notifications may deliver the context of any contributing notification"},
 		Plan:      plan,
 		Run:       runCase,
 		CaseWatch: 60 * time.Second,
